@@ -343,6 +343,41 @@ impl<'tcx> Cx<'tcx> {
         o.set("ty", J::s(&self.p(ty)));
         if tcx.generics_of(d).requires_monomorphization(tcx) {
             o.set("generic", J::b(true));
+            // A constant declared in a generic impl may still not depend on the parameters
+            // (e.g. `Context::<K>::MAX_LENGTH`): evaluate it when its MIR mentions no type parameter.
+            if let DefKind::AssocConst { .. } = kind {
+                if tcx.hir_maybe_body_owned_by(ld).is_some() && ty.is_integral() {
+                    use rustc_middle::ty::TypeVisitableExt;
+                    let body = tcx.mir_for_ctfe(d);
+                    let mut clean = true;
+                    for l in body.local_decls.iter() {
+                        if l.ty.has_non_region_param() {
+                            clean = false;
+                        }
+                    }
+                    for bb in body.basic_blocks.iter() {
+                        if let Some(t) = &bb.terminator {
+                            if let TerminatorKind::Call { .. } = t.kind {
+                                clean = false;
+                            }
+                        }
+                        for st in &bb.statements {
+                            if let StatementKind::Assign(b) = &st.kind {
+                                if let Rvalue::Use(Operand::Constant(c), ..) = &b.1 {
+                                    if c.const_.has_non_region_param() {
+                                        clean = false;
+                                    }
+                                }
+                            }
+                        }
+                    }
+                    if clean {
+                        if let Ok(cv) = tcx.const_eval_poly(d) {
+                            o.set("value", self.const_value(cv, ty));
+                        }
+                    }
+                }
+            }
             return Some(o);
         }
         // trait-declared associated consts without default have no body
